@@ -166,6 +166,16 @@ func (m *AppPlacementManager) PlaceApplication(app *objects.Application) error {
 				// check if the queue exist
 				queue = m.queueFn(current)
 			}
+			// A queue cannot be created below a leaf queue, next rule
+			if queue.IsLeafQueue() {
+				log.Log(log.SchedApplication).Debug("Rule returned a queue below a leaf queue",
+					zap.String("queueName", queueName),
+					zap.String("leafQueue", queue.GetQueuePath()),
+					zap.String("ruleName", checkRule.getName()),
+					zap.String("application", app.ApplicationID))
+				queueName = ""
+				continue
+			}
 			// Check if the user is allowed to submit to this queueName, if not next rule
 			if !queue.CheckSubmitAccess(app.GetUser()) {
 				log.Log(log.SchedApplication).Debug("Submit access denied on queue",
